@@ -358,7 +358,14 @@ def rule_own_fields(ctx: Ctx, rep: Report) -> None:
     rule_own_fields_forwarded(ctx, rep, "C15.own_fields", ('btclib.descriptors.miniscript',), 6)
 
 
+def rule_params_forwarded_(ctx: Ctx, rep: Report) -> None:
+    """C15.params_forwarded: a parameter is handed on to callees that have a parameter of the same name (see sigcommon.rule_params_forwarded)."""
+    from rules.sigcommon import rule_params_forwarded
+    rule_params_forwarded(ctx, rep, "C15.params_forwarded", ('btclib.descriptors.miniscript',), 60)
+
+
 RULES = [
+    ("C15.params_forwarded", rule_params_forwarded_),
     ("C15.own_fields", rule_own_fields),
     ("C15.universe", rule_universe),
     ("C15.verify_state", rule_verify_state),
